@@ -148,7 +148,8 @@ pub fn macrogen(seed: u64, n: usize) -> String {
     let mut s = String::from("// generated by harness C09 macrogen\n#![allow(unused_parens, clippy::all)]\nuse lexpr::sexp;\nfn main() {\n    let mut bad = 0usize;\n    let mut n = 0usize;\n");
     let mut k = 0;
     while k < n {
-        let (src, text) = gen_sx(&mut r, 0, true);
+        // the first program is always the recorded known finding, so that every run exhibits it
+        let (src, text) = if k == 0 { ("(- 1 2)".to_string(), "(- 1 2)".to_string()) } else { gen_sx(&mut r, 0, true) };
         if text.contains("|unprintable|") || TokenStream::from_str(&src).is_err() { continue; }
         // the inherent `- 1` ambiguity: a lone minus directly before a numeric literal
         let known = src.contains("- 0") || src.contains("- 1") || src.contains("- 2") || src.contains("- 3") || src.contains("- 4") || src.contains("- 5") || src.contains("- 6") || src.contains("- 7") || src.contains("- 8") || src.contains("- 9");
